@@ -278,7 +278,8 @@ theorem applyPostFilter_refines (parent : Component) (fold : Fold) (f : IRFilter
   split
   · simp only [R.bind_eq_bind, R.pure_eq_ok]
     exact Refines.bind (applyFilter_refines h ..) fun _ => .refl _
-  · exact .refl _
+  · simp only [R.bind_eq_bind, R.pure_eq_ok]
+    exact Refines.bind (applyFilter_refines h ..) fun _ => .refl _
   · exact .refl _
 
 theorem applyPostFilters_refines (parent : Component) (fold : Fold) (fs : List IRFilter) (c : Ctx) :
